@@ -206,7 +206,9 @@ theorem fr_checkRelationTarget (t : Ent) : Fr (checkRelationTarget t) :=
 
 theorem fr_preCheck (p : Path) (ids : List Comp) (rels : List RelID) : Fr (preCheck p ids rels) := by
   cases p with
-  | unsafe_ => exact Fr.pure ()
+  | unsafe_ =>
+    exact Fr.forM' (fun r => Fr.bind (fr_checkRelationTarget r.target)
+      fun _ => Fr.bind (fr_checkRelationComponent r.comp) fun _ => Fr.assert _ _) rels
   | map1 =>
     exact Fr.forM' (fun r => Fr.bind (fr_checkRelationTarget r.target)
       fun _ => fr_checkRelationComponent r.comp) rels
